@@ -295,7 +295,10 @@ def check_format_input_scalar(
     if not isinstance(inp, numbers.Number):
         raise MagpylibBadUserInput(ERR_MSG)
 
-    inp = float(inp)
+    try:
+        inp = float(inp)
+    except (TypeError, OverflowError) as err:  # complex numbers, integers beyond the float range
+        raise MagpylibBadUserInput(ERR_MSG) from err
 
     if forbid_negative:
         if inp < 0:
